@@ -123,11 +123,14 @@ def run_q_read(nt, datagrams):
 class RecordingNetworkingThread:
     """What WSDiscovery needs of its networking thread; records outbound messages."""
 
-    def __init__(self):
+    def __init__(self, forward=None):
         self.outbound = []  # (created_message, addr, port, repeat_params)
+        self.forward = forward  # a (socket-less) real NetworkingThread that also gets the message (its bookkeeping runs)
 
     def add_outbound_message(self, msg, addr, port, repeat_params):
         self.outbound.append((msg, addr, port, repeat_params))
+        if self.forward is not None:
+            self.forward.add_outbound_message(msg, addr, port, repeat_params)
 
     def start(self):
         pass
